@@ -286,6 +286,16 @@ _ROUND4 = {
  "C08": " Round 4: sort comparators of the digest packages compare accessor results, not transformations of them (BYTE-ORDER); hashed dependency digests are a total mapping of the list received (DEPS-UNFILTERED); a value computed inside sync.Once.Do is kept where later calls see it (ONCE-RESULT-LOST, self-tested).",
  "C09": " Round 4: the lock layer itself (FILELOCK: Unlocker only when held, Lock exclusive / RLock shared, one lock file per key for readers and writers, locker root from the cache directory, lock files never removed); the joined error of thread.Parallelize is returned whole (PARALLEL-ERR-WHOLE); ONCE-RESULT-LOST.",
  "C10": " Round 4: a list filled and consumed within one loop iteration does not live across iterations (LOOP-ACCUM, self-tested); a not-found for some other path is classified before it can be returned as the answer about the caller's path (FOREIGN-NOT-FOUND); every path through a builder's Add method records the module or an error (ADD-RECORDS); ARGMAX on SSA replaces the name-anchored ARGMAX-LOOP; DELEGATE-ERR.",
+ "C11": " Round 4: a search through public imports recurses (PUBLIC-TRANSITIVE); the built-in well-known types are consulted only after the workspace lookup failed (WKT-AFTER-MISS); unknown fields are cleared before the re-parse merge, never after (CLEAR-BEFORE-MERGE).",
+ "C12": " Round 4: a slice parameter is returned as is only where known non-empty when callers read nil as 'deleted' (NIL-PROTOCOL); every list of google.protobuf.*Options names covers descriptorpb's options messages (OPTIONS-TYPES-COMPLETE); include and exclude reach one FilterImage call together, never chained passes (FILTER-ONCE); binary-searched tries are grown by sorted insertion (SORTED-INVARIANT).",
+ "C13": " Round 4: nothing that can create a separator is applied after Clean (CLEAN-LAST); the disk bucket never removes or renames a parent of an object's path (DISK-NO-ASCEND); the atomic put's temporary file lies in the final directory (ATOMIC-WRITER shared).",
+ "C14": " Round 4: each exported matcher applies the normalpath predicate its name promises (MATCHER-NAMESAKE); bucket views write no field of their own (WRAPPER-STATELESS); R-ABSVALID shared; DELEGATE-ERR on the multi bucket.",
+ "C15": " Round 4: packages whose objects are trusted on sight create every object with PutWithAtomic (ATOMIC-KEPT); the error of a call that may write is never turned into success, classified or not (R-WRITE-SWALLOW, 78 sites); an error handed on along one path is looked at before success is returned on another (R-ERRSEEN, self-tested); PARALLEL-ERR-WHOLE.",
+ "C16": " Round 4: root-relative exclude filters are applied to the root-mapped bucket (FILTER-AFTER-MAP); the protoc built-in table is consulted only after a PATH lookup by executor and writer alike (BINARY-BEFORE-BUILTIN); every constructor call fed from one external struct receives all sections any of them receives (SECTIONS-KEPT).",
+ "C17": " Round 4: a response's files enter the shared response writer in one call (RESPONSE-WHOLE); a parameter compared with a canonicalised value was canonicalised the same way by every caller (SAME-CANONICAL); the insertion-point marker delimits the name on both sides (MARKER-DELIMITED).",
+ "C18": " Round 4: the FieldOptions trie is grown by sorted insertion only (SORTED-INVARIANT); option name tables are mutually inverse (TABLES-INVERSE shared).",
+ "C19": " Round 4: token sources are handed over in the order environment, then .netrc, for every way the list can be built (SOURCE-ORDER); a per-call list built on a shared slice starts from a copy (SHARED-APPEND); errors are consumed in the client-building packages (R-ERRUSE).",
+ "C20": " Round 4: printers never format a raw line/column (POSITION-CLAMPED); format strings of the printers are constants (FORMAT-CONSTANT); the exit status is a constant or the app error's own code (EXIT-CODE-OWN).",
 }
 for _k, _v in _ROUND4.items():
     if _k in TEXTS and _v.strip() not in TEXTS[_k]["text"]:
